@@ -322,7 +322,7 @@ def h_exceptions(eng):
         for a in ("", 0, UnitsContainer({}), None):
             samples.append(cls("meter", a, a, a, a if isinstance(a, str) else ""))
     for fn in (lambda: ureg.Quantity(1, "degC") * 2, lambda: ureg.Quantity(1, "degC") * ureg.Quantity(1, "meter"), lambda: ureg.Quantity(1, "degC") ** 2, lambda: ureg.Quantity(1, "dBm") * ureg.Quantity(1, "meter"),
-               lambda: ureg.Quantity(1, "dBm") * 2, lambda: ureg.Quantity(1, "meter").to("second"), lambda: ureg.Quantity(1, "meter") + 1, lambda: ureg.parse_units("nosuchunit")):  # fmt: skip
+               lambda: ureg.Quantity(1, "dBm") * 2, lambda: ureg.Quantity(1, "meter").to("second"), lambda: ureg.Quantity(1, "meter").to("dimensionless"), lambda: ureg.Quantity(1, "meter").to("percent"), lambda: ureg.Quantity(1, "").to("second"), lambda: ureg.Quantity(1, "meter") + 1, lambda: ureg.parse_units("nosuchunit")):  # fmt: skip
         try:
             fn()
         except perr.PintError as ex:
@@ -333,7 +333,8 @@ def h_exceptions(eng):
         name = type(ex).__name__
         for cname, cp in (("copy", copy.copy), ("deepcopy", copy.deepcopy)):
             got = cp(ex)
-            eng.prove(type(got) is type(ex) and str(got) == str(ex) and vars(got) == vars(ex), f"{name}:{cname}:type-message-fields")
+            typed = lambda e_: {k: (type(v).__name__, repr(v)) for k, v in vars(e_).items()}  # noqa: E731 - (== between a container and a string is lenient)
+            eng.prove(type(got) is type(ex) and str(got) == str(ex) and vars(got) == vars(ex) and typed(got) == typed(ex), f"{name}:{cname}:type-message-fields")
         for proto in range(0, pickle.HIGHEST_PROTOCOL + 1):
             got = pickle.loads(pickle.dumps(ex, proto))
             name = type(ex).__name__
@@ -341,6 +342,7 @@ def h_exceptions(eng):
             eng.prove(str(got) == str(ex), f"{name}:message:p{proto}")
             fields = {k: v for k, v in vars(ex).items()}
             eng.prove({k: v for k, v in vars(got).items()} == fields, f"{name}:fields:p{proto}")
+            eng.prove({k: (type(v).__name__, repr(v)) for k, v in vars(got).items()} == {k: (type(v).__name__, repr(v)) for k, v in fields.items()}, f"{name}:field-types:p{proto}")
 
 
 def h_measurement_roundtrip(eng):
@@ -438,6 +440,32 @@ def h_pickle_across_processes(eng):
         shutil.rmtree(tmp, ignore_errors=True)
 
 
+def h_roundtrip_then_algebra(eng):
+    """a round-tripped unit or quantity takes part in unit algebra like the original: dividing by
+    a unit with a non-integer exponent keeps that exponent"""
+    ureg = regs.float_default()
+    hows = [("copy", copy.copy), ("deepcopy", copy.deepcopy)] + [(f"pickle:{p}", (lambda p: lambda o: pickle.loads(pickle.dumps(o, p)))(p)) for p in range(0, pickle.HIGHEST_PROTOCOL + 1)]
+    old = pint.get_application_registry().get()
+    pint.set_application_registry(ureg)
+    try:
+        root = ureg.Unit("hertz") ** 0.5
+        for how, fn in hows:
+            for label, obj in (("unit", ureg.Unit("volt")), ("quantity", ureg.Quantity(2.5, "volt")), ("container", ureg.UnitsContainer({"volt": 1}))):
+                rt = fn(obj)
+                want = (obj / root) if label != "container" else (obj / root._units)
+                got = (rt / root) if label != "container" else (rt / root._units)
+                wu = want._units if hasattr(want, "_units") else want
+                gu = got._units if hasattr(got, "_units") else got
+                eng.prove(dict(gu) == dict(wu) == {"volt": 1, "hertz": -0.5}, f"roundtrip-then-divide:{how}:{label}")
+                gm = rt * root if label != "container" else rt * root._units
+                gmu = gm._units if hasattr(gm, "_units") else gm
+                eng.prove(dict(gmu) == {"volt": 1, "hertz": 0.5}, f"roundtrip-then-multiply:{how}:{label}")
+                cont = rt._units if hasattr(rt, "_units") else rt
+                eng.prove(cont._non_int_type is float, f"roundtrip:{how}:{label}:numeric-type-of-the-container")
+    finally:
+        pint.set_application_registry(old)
+
+
 def h_deepcopy_groups_systems(eng):
     """the groups and systems of a deep-copied registry are the copy's own: they belong to it,
     edits to them are seen by the copy (and only by the copy), new ones can be made"""
@@ -532,6 +560,7 @@ def cases(tier, seed):
     out.append(Case("H18.e", "pickle-across-processes", M, "h_pickle_across_processes", {}, kind="conc"))
     out.append(Case("H18.c", "deepcopy-measurements", M, "h_deepcopy_measurements", {}, kind="conc"))
     out.append(Case("H18.c", "deepcopy-groups-systems", M, "h_deepcopy_groups_systems", {}, kind="conc"))
+    out.append(Case("H18.a", "roundtrip-then-algebra", M, "h_roundtrip_then_algebra", {}, kind="conc"))
     out.append(Case("H18.d", "lazy-first-touch-queries", M, "h_lazy_first_touch_queries", {}, kind="conc"))
     out.append(Case("H18.obs", "observed", "pvlib.harness.observed", "h_c18", {}, kind="conc"))
     return out
